@@ -856,14 +856,14 @@ def run(ctx):
 # ---- short and ill-typed argument lists under valgrind memcheck ------------------------------------------------------------------
 # ASan cannot see a read of an argument slot that was never passed (it is inside the fiber stack allocation); memcheck can, because a
 # fresh fiber's stack is uninitialised. Every C function of the core environment is called in a fresh fiber with argument lists of
-# length 0..3 drawn from a palette of types. A memcheck report inside one of the property's families is a violation; reports in other
+# length 0..5 drawn from a palette of types. A memcheck report inside one of the property's families is a violation; reports in other
 # functions are listed in the evidence only (no property of this set covers them).
 SWEEP = r'''
 (def deny (tabseq [n :in (string/split " " (get (dyn :args) 1))] (symbol n) true))
 (def seed (scan-number (get (dyn :args) 2)))
 (def per (scan-number (get (dyn :args) 3)))
 (def rng (math/rng seed))
-(def palette [nil 1 -1 0.5 "s" @"b" :k 'sym @[1 2] [1 2] @{:a 1} {:a 1} (fn [&] 1) 1e308 math/nan "" @"" [] @[] true (int/s64 1) 4294967296 -2147483648])
+(def palette [nil 1 -1 0.5 "s" @"b" :k 'sym @[1 2] [1 2] @{:a 1} {:a 1} (fn [&] 1) 1e308 math/nan "" @"" [] @[] true (int/s64 1) 4294967296 -2147483648 -2147483649 (int/u64 "18446744073709551615") math/inf])
 (defn pick [] (get palette (math/rng-int rng (length palette))))
 (each name (sort (filter symbol? (all-bindings root-env true)))
   (def v (get-in root-env [name :value]))
@@ -872,6 +872,8 @@ SWEEP = r'''
     (each p palette (array/push sets [p]))
     (for i 0 per (array/push sets [(pick) (pick)]))
     (for i 0 per (array/push sets [(pick) (pick) (pick)]))
+    (for i 0 (math/ceil (/ per 3)) (array/push sets [(pick) (pick) (pick) (pick)]))
+    (for i 0 (math/ceil (/ per 3)) (array/push sets [(pick) (pick) (pick) (pick) (pick)]))
     (var i -1)
     (each a sets
       (++ i)
@@ -912,14 +914,14 @@ def arity_memcheck(ctx):
         path = os.path.join(d, "sweep.janet")
         open(path, "w").write(SWEEP)
         res = core.run(["valgrind", "-q", "--num-callers=8", "--error-exitcode=0", exe, path, " ".join(SWEEP_DENY), str(ctx.sub_seed("memcheck", si) % 1000000), str(per)],
-                       timeout=1500, cwd=d, san=False)
+                       timeout=(400 if quick else 2400), cwd=d, san=False)
         err = res.err.decode(errors="replace")
         core.discard(res)
         shutil.rmtree(d, ignore_errors=True)
         if "SWEEP-DONE" not in err:
             last = [l for l in err.splitlines() if l.startswith("CALL|")][-1:]
             name = last[0].split("|")[1] if last else "?"
-            if res.timed_out:
+            if res.timed_out or res.sig == 9:      # SIGKILL comes only from outside (watchdog, OOM killer): never a verdict
                 with ctx.lock:
                     ctx.inconclusive.append("memcheck-sweep-watchdog:" + name)
                 return
